@@ -1,5 +1,5 @@
-\* batches of <= 3 entries over 18 class representatives, pool of 2 workers, every interleaving of
-\* dispatcher / handler calls / response appends; REPAIRED model = the pure property
+\* REPAIRED model; batches of <= 3 entries over 18 class representatives, pool of 2 workers
+\* measured: 177 528 distinct / 247 653 generated states, depth 16
 CONSTANTS
   Methods <- MCMethods
   EntryAlphabet <- EntriesSmall
